@@ -3,9 +3,11 @@
 PATCH=$1; shift
 cd /repo && git apply "$PATCH" || { echo "patch failed"; exit 2; }
 cd /verif
+rm -rf /dev/shm/fxv-evidence-backup; cp -r evidence /dev/shm/fxv-evidence-backup
 for id in "$@"; do
   START=$(date +%s)
   OUT=$(./check $id --tier quick 2>&1 | grep -E 'VIOLATION|KNOWN-FINDING|INCONCLUSIVE|fxv:' | cut -c1-300 | head -3)
   echo "[$id] $(( $(date +%s) - START ))s: ${OUT:-silent}"
 done
+rm -rf evidence; cp -r /dev/shm/fxv-evidence-backup evidence; rm -rf /dev/shm/fxv-evidence-backup
 git -C /repo checkout -- . && git -C /repo status --short | head -2
